@@ -116,7 +116,13 @@ class Explorer:
                 ctx.assume(list(_as_dict(con.call(con.requires, oldview, tys)).values()))
             interp = Interp(ctx, self.reg, self.lib)
             try:
-                env = interp.bind_args(fi, [], dict(args))
+                call_kw = dict(args)
+                kwname = fi.node.args.kwarg.arg if fi.node.args.kwarg is not None else None
+                if kwname is not None and isinstance(call_kw.get(kwname), dict):
+                    # a spec'd **kwargs parameter is passed as keyword arguments
+                    extra_kw = call_kw.pop(kwname)
+                    call_kw.update(extra_kw)
+                env = interp.bind_args(fi, [], call_kw)
                 res = interp.run_function(fi, env, con)
                 outcome = ('return', res)
             except PyRaise as r:
